@@ -314,7 +314,11 @@ def leaf_mutants(t, v, env, rng):
         if k == "UTF8String":
             for what, raw in (("utf8-illegal-start", b"\xff"), ("utf8-truncated", b"\xc3"), ("utf8-overlong", b"\xc0\xaf"),
                               ("utf8-not-continuation", b"\xe2\x28\xa1"), ("utf8-surrogate", b"\xed\xa0\x80"),
-                              ("utf8-5-octets", b"\xf8\x88\x80\x80\x80"), ("utf8-above-10ffff", b"\xf4\x90\x80\x80")):
+                              ("utf8-5-octets", b"\xf8\x88\x80\x80\x80"), ("utf8-above-10ffff", b"\xf4\x90\x80\x80"),
+                              # overlong forms at the boundaries of every sequence length (minimal code points 0x80, 0x800, 0x10000)
+                              ("utf8-overlong", b"\xc1\xbf"), ("utf8-overlong", b"\xe0\x80\x80"), ("utf8-overlong", b"\xe0\x82\x80"),
+                              ("utf8-overlong", b"\xe0\x83\xa9"), ("utf8-overlong", b"\xe0\x9f\xbf"), ("utf8-overlong", b"\xf0\x80\x80\x80"),
+                              ("utf8-overlong", b"\xf0\x82\x82\xac"), ("utf8-overlong", b"\xf0\x8f\xbf\xbf")):
                 for pos in sorted({0, len(cs)}):
                     pre = mk_chars(k, cs[:pos]); post = mk_chars(k, cs[pos + 1:]) if pos < len(cs) else b""
                     out.append((what, pre + raw + post))
